@@ -17,7 +17,7 @@ THEOREMS = {
             "Lemmas.Rev.step_up", "Lemmas.Rev.step_down", "Lemmas.Rev.mem_unmergeTo", "Lemmas.Rev.mem_mergeFrom", "C03.rows_history", "C03.rowsOk_sound", "C03.traceOk_sound"],
     "C05": ["C05.single", "C05.single_gen", "C05.several", "C05.base", "C05.stamp_one", "C05.stamp_several", "C05.stamp_heads", "C05.stamp_heads_history",
             "C05.stamp_base", "C05.stampRevs_ids", "C05.stampOk_sound", "C05.lineage_history", "C05.stamp_fold", "C05.sharesLineage_iff",
-            "Lemmas.Rev.fold_ok", "Lemmas.Rev.loaded_of_load", "C05.stamp_branch_head", "C05.getRevisions_branch_head", "C05.resolveShares_branch_head", "C05.stamp_prefix_eq_full", "C05.upgrade_branch_head_eq", "C05.upgrade_heads_from_empty_runs_all"],
+            "Lemmas.Rev.fold_ok", "Lemmas.Rev.loaded_of_load", "C05.stamp_branch_head", "C05.getRevisions_branch_head", "C05.resolveShares_branch_head", "C05.stamp_prefix_eq_full", "C05.upgrade_branch_head_eq", "C05.upgrade_heads_from_empty_runs_all", "C05.downgrade_base_removes_all", "C05.reaches_root"],
     "C15": ["C15.cyclic_rejected", "C15.detect_rejects_cycle", "C15.acyclic_accepted", "C15.acyclic_loads",
             "C15.acyclic_no_cycle", "C15.heads_bases", "C15.heads_bases_history", "C15.closure_total", "C15.hasCycle_sound", "C15.hasCycle_complete", "C15.hasCycle_iff", "C15.no_cycle_acyclic", "C15.no_cycle_accepted", "C15.cyclic_refused_every_read", "C15.memo_run_refused", "C15.memo_run_loaded",
             "Lemmas.Rev.peel_of_ranked", "Lemmas.Rev.peel_keeps_cycle", "Lemmas.Rev.ranked_of_peel",
